@@ -26,7 +26,7 @@ void profile_blast(RunCtx& ctx)
 {
     Rng rng{ctx.run_seed};
     GenCfg cfg;
-    Model m = small_or_drawn_model(ctx, rng, cfg, false);  // template indices of the model and of the document must coincide
+    Model m = small_or_drawn_model(ctx, rng, cfg);
     m.queries.clear();
     XmlKnobs kn = draw_knobs(rng);
     kn.pad_text = false;
@@ -52,6 +52,14 @@ void profile_blast(RunCtx& ctx)
         default: set_block_text(m, blocks[b], prefix_of[b] + get_block_text(m, blocks[b])); break;
         }
     }
+    // a dynamic template is kept apart from Document::get_templates(): index of a model template among those
+    auto doc_templ = [&m](int model_index) {
+        int d = model_index;
+        for (int i = 0; i < model_index && i < (int)m.templs.size(); ++i)
+            if (m.templs[i].dynamic)
+                --d;
+        return d;
+    };
     const Model pristine = m;
     std::vector<std::string> texts(blocks.size());
     for (size_t b = 0; b < blocks.size(); ++b)
@@ -248,7 +256,7 @@ void profile_blast(RunCtx& ctx)
                 ref_doc.doc) {
                 DumpOpts o;
                 o.diagnostics = false;
-                o.mask_templ = b.templ;
+                o.mask_templ = doc_templ(b.templ);
                 o.mask_elem = (b.kind == BlockRef::INV || b.kind == BlockRef::RATE) ? 'L' : 'E';
                 o.mask_index = b.index;
                 o.mask_field = b.field();
@@ -368,7 +376,7 @@ void profile_blast(RunCtx& ctx)
             DumpOpts o;
             o.diagnostics = false;
             if (!b.declaring()) {
-                o.mask_templ = b.templ;
+                o.mask_templ = doc_templ(b.templ);
                 o.mask_elem = (b.kind == BlockRef::INV || b.kind == BlockRef::RATE) ? 'L' : 'E';
                 o.mask_index = b.index;
                 o.mask_field = b.field();
@@ -418,7 +426,7 @@ void profile_blast(RunCtx& ctx)
                 }
                 if (idx >= decls.size())
                     idx = decls.size() - 1;
-                o.mask_decl_templ = b.kind == BlockRef::GDECL ? -1 : b.templ;
+                o.mask_decl_templ = b.kind == BlockRef::GDECL ? -1 : doc_templ(b.templ);
                 o.keep_syms = (int)idx + (b.kind == BlockRef::TDECL ? (int)pristine.templs[b.templ].params.size() : 0);
                 o.keep_vars = o.keep_funs = 0;
                 for (size_t k = 0; k < idx; ++k) {
